@@ -129,23 +129,48 @@ func c10LexOrigin(c *Ctx) {
 	}
 	c.Fn(FuncName(fn))
 	var pcall, lcall *ssa.Call
-	for _, b := range fn.Blocks {
-		for _, ins := range b.Instrs {
-			if call, ok := ins.(*ssa.Call); ok {
-				switch call.Call.StaticCallee() {
-				case pc:
+	// arguments as seen from hclwrite.parse: a helper that does the lexing (or parsing) is handed
+	// parse's values, which are substituted for its parameters
+	subst := map[ssa.Value]ssa.Value{}
+	var scan func(f *ssa.Function, depth int)
+	scan = func(f *ssa.Function, depth int) {
+		for _, b := range f.Blocks {
+			for _, ins := range b.Instrs {
+				call, ok := ins.(*ssa.Call)
+				if !ok {
+					continue
+				}
+				switch cal := call.Call.StaticCallee(); {
+				case cal == pc:
 					pcall = call
-				case lc:
+				case cal == lc:
 					lcall = call
+				case cal != nil && depth < 2 && fnPkg(cal) != nil && fnPkg(cal).Path() == hclwritePath && len(cal.Blocks) > 0 && cal != fn:
+					for k, a := range call.Call.Args {
+						if k < len(cal.Params) {
+							if v, ok := subst[a]; ok {
+								a = v
+							}
+							subst[cal.Params[k]] = a
+						}
+					}
+					scan(cal, depth+1)
 				}
 			}
 		}
 	}
+	scan(fn, 0)
 	if pcall == nil || lcall == nil {
 		c.Undecided("lex.origin", FuncName(fn)+":calls", fn.Pos(), "hclwrite.parse does not call both ParseConfig and LexConfig directly")
 		return
 	}
 	same := func(a, b ssa.Value) bool {
+		if v, ok := subst[a]; ok {
+			a = v
+		}
+		if v, ok := subst[b]; ok {
+			b = v
+		}
 		if a == b {
 			return true
 		}
